@@ -267,4 +267,88 @@ Proof.
     unfold cg_lens; cbn. repeat split; auto; apply (@zeros_length SAR).
 Qed.
 
+(* ---- tol = 0: conjugate gradients as a direct solver ---- *)
+Lemma dot_self_zero (v : list R) : @dot_raw AR v v = 0 -> v = repeat 0 (length v).
+Proof.
+  induction v as [|x v IH]; intros H; [reflexivity|].
+  rewrite (@dot_raw_cons SAR AR_FieldLaws) in H. cbn in H.
+  pose proof (dot_self_nonneg v) as Hv. cbn [length repeat].
+  assert (Hx : x = 0) by nra. assert (Hd : @dot_raw AR v v = 0) by nra.
+  rewrite Hx. f_equal. now apply IH.
+Qed.
+
+Lemma norm2_zero_vec (v : list R) : @norm2 SAR v = 0 -> v = repeat 0 (length v).
+Proof.
+  intros H. rewrite norm2_dot in H. apply dot_self_zero.
+  apply sqrt_eq_0; auto. apply dot_self_nonneg.
+Qed.
+
+Lemma zipw_sub_zero_eq (u v : list R) : length u = length v ->
+  @zipw AR Rminus u v = repeat 0 (length u) -> u = v.
+Proof.
+  revert v; induction u as [|a u IH]; intros [|b v] Hl H; cbn in Hl; try discriminate; auto.
+  change (@zipw AR Rminus (a :: u) (b :: v)) with ((a - b) :: @zipw AR Rminus u v) in H.
+  cbn [length repeat] in H.
+  assert (Hab : a - b = 0) by (now injection H).
+  assert (Ht : @zipw AR Rminus u v = repeat 0 (length u)) by (now injection H).
+  f_equal; [exact (Rminus_diag_uniq a b Hab)|]. apply IH; auto.
+Qed.
+
+Lemma zipw_sub_as_add (u v : list R) : @zipw AR Rminus u v = @zipw AR Rplus u (@vscale AR v (-1)).
+Proof.
+  revert v; induction u as [|a u IH]; intros [|b v]; try reflexivity.
+  cbn. f_equal; [lra|]. apply IH.
+Qed.
+
+(* a positive definite operator is injective: the solution is unique *)
+Lemma posdef_unique (x xs b : list R) : PosDef n mulA -> length x = n -> length xs = n ->
+  mulA x = Ok b -> mulA xs = Ok b -> x = xs.
+Proof.
+  intros PD Hx Hxs Ex Exs.
+  assert (Hb : length b = n) by (eapply (@mulA_len' SAR); eauto).
+  set (e := @zipw AR Rminus x xs).
+  assert (He : length e = n).
+  { apply eq_trans with (length x); [|exact Hx]. apply (@zipw_length SAR). exact (eq_trans Hx (eq_sym Hxs)). }
+  assert (Eae : mulA e = Ok (@zipw AR Rminus b b)).
+  { unfold e. rewrite !zipw_sub_as_add.
+    apply (@lo_add AR n mulA LO); auto.
+    - unfold vscale. rewrite map_length. exact Hxs.
+    - now apply (@lo_scale AR n mulA LO). }
+  apply zipw_sub_zero_eq; [lia|]. fold e. rewrite Hx, <- He.
+  destruct (list_eq_dec Req_EM_T e (repeat 0 (length e))) as [E|Hne]; auto.
+  exfalso. rewrite He in Hne. pose proof (PD e _ He Eae Hne) as Hpos.
+  assert (Ezero : @zipw AR Rminus b b = repeat 0 (length b)) by exact (@zipw_sub_self SAR AR_FieldLaws b).
+  rewrite Ezero in Hpos.
+  assert (Ed0 : @dot_raw AR e (repeat 0 (length b)) = 0) by exact (@dot_raw_zeros_r SAR AR_FieldLaws e (length b)).
+  rewrite Ed0 in Hpos. lra.
+Qed.
+
+(* SPD, tol = 0, budget >= n: solve_cg returns the exact solution of A x = b within n iterations -- and it is
+   the solution (any xs with A xs = b equals it): agreement with the direct solver, in exact arithmetic *)
+Theorem cg_direct_solver_R (b x0 : list R) max :
+  PosDef n mulA -> length b = n -> length x0 = n -> (n <= max)%nat ->
+  exists k x g, @solve_cg SAR mulA n n b x0 max 0 = Ok (IOk k, x, g) /\ (k <= n)%nat /\ mulA x = Ok b /\
+    forall xs, length xs = n -> mulA xs = Ok b -> xs = x.
+Proof.
+  intros PD Hb Hx Hmax.
+  destruct (cg_terminates_spd_R b x0 max 0 PD Hb Hx (Rle_refl 0) Hmax) as (k & x & g & H & Hk).
+  exists k, x, g. split; auto. split; auto.
+  assert (Hxl : length x = n).
+  { change (@solve_cg SAR mulA n n b x0 max 0) with (@run SAR mulA mulA n n CG b x0 max 0) in H.
+    apply run_length in H. exact (eq_trans H Hx). }
+  assert (Eax : mulA x = Ok b).
+  { change (@solve_cg SAR mulA n n b x0 max 0) with (@run SAR mulA mulA n n CG b x0 max 0) in H.
+    destruct (run_ok_solved_R n mulA mulA LO n CG b x0 max 0 k x g H) as (ax & Eax & Hle).
+    assert (Hax : length ax = n) by (eapply (@mulA_len' SAR); eauto).
+    rewrite Rmult_0_l in Hle.
+    assert (Hz : @norm2 SAR (@zipw AR Rminus b ax) = 0) by (pose proof (norm2_R_nonneg (@zipw AR Rminus b ax)); lra).
+    apply norm2_zero_vec in Hz.
+    assert (Hl : length (@zipw AR Rminus b ax) = length b)
+      by (apply (@zipw_length SAR); exact (eq_trans Hb (eq_sym Hax))).
+    assert (Hz' : @zipw AR Rminus b ax = repeat 0 (length b)).
+    { etransitivity; [exact Hz|]. f_equal. exact Hl. }
+    apply zipw_sub_zero_eq in Hz'; [|exact (eq_trans Hb (eq_sym Hax))]. now rewrite Hz'. }
+  split; auto. intros xs Hxs Exs. symmetry. eapply posdef_unique; eauto.
+Qed.
+
 End CGReal.
